@@ -540,6 +540,7 @@ class Engine(Interp):
             self.note_live_path()
             self.check_normal(c, result, env, fr.old, fnode, modname)
         self.live_paths = 0
+        self.path_sat_left = 2
         self.ctx.explore(run)
         # vacuity guard: some path must reach its end with a satisfiable (quantifier-free part of the) path condition - if every
         # path died on contradictory assumptions (assumed callee contracts, lemmas, loop invariants), everything was "proved"
@@ -564,9 +565,11 @@ class Engine(Interp):
         post_env = dict(env)
         post_env.update(getattr(self.frame, "entry", {}))
         post_env["result"] = result
-        if self.frame.qualname.startswith("vf.proplemmas."):
-            # a property lemma lives on assumed callee contracts: what they promise together must be satisfiable on this path
-            self.ctx.oblige("path-sat", z3.BoolVal(True), line, expect_sat=True, note="callee contracts jointly satisfiable at return")
+        if self.path_sat_left > 0:
+            # the assumptions collected on this path (callee contracts, invariants, axioms of the models, lemmas) must be jointly
+            # satisfiable - checked with the full path condition on the first few live paths of every function
+            self.path_sat_left -= 1
+            self.ctx.oblige("path-sat", z3.BoolVal(True), line, expect_sat=True, note="assumptions on this path are jointly satisfiable")
         # iff-conditions of raises: a normal return means none of them held
         for exc_name, cond in c.raises.items():
             if cond is not None:
